@@ -45,6 +45,14 @@ macro "vm_vc" : tactic => `(tactic| (
 
 macro "step_start" : tactic => `(tactic| (apply triple_of_fixed'; intro s0 hpre))
 
+theorem clearDown_specF (hi lo : Int) (c0 : CP) :
+    ⦃fun s => ⌜c0 = cp s ∧ (False → 0 ≤ lo ∧ hi < 2048)⌝⦄ clearDown hi lo
+    ⦃post⟨fun _ s => ⌜cp s = c0⌝, fun e s => ⌜cp s = c0 ∧ ¬False ∧ ∃ m, e = .panic m⌝⟩⦄ := clearDown_spec hi lo c0 False
+
+theorem throwF_specF (fuel : Nat) (err : Addr) (c0 : CP) :
+    ⦃fun s => ⌜c0 = cp s ∧ ThrowPre False True fuel s⌝⦄ throwF fuel err
+    ⦃post⟨fun r s => ⌜ThrowOk c0 err r s⌝, fun e s => ⌜ThrowExc False True c0 e s⌝⟩⦄ := throwF_spec False True fuel err c0
+
 syntax "step_gen" "[" Lean.Parser.Tactic.simpLemma,* "]" : tactic
 macro_rules
   | `(tactic| step_gen [$ids,*]) =>
@@ -64,7 +72,7 @@ theorem execSetLocal_ok (np : Bool) : StepSpec np execSetLocal := by
   step_start; step_gen [execSetLocal]; all_goals vm_vc
 
 theorem execBinaryOp_ok (np : Bool) (F : FloatOps) : StepSpec np (execBinaryOp F) := by
-  step_start; have fw := failWith_spec; step_gen [execBinaryOp, fw]; all_goals vm_vc
+  step_start; step_gen [execBinaryOp, failWith_spec]; all_goals vm_vc
 
 theorem execAndJump_ok (np : Bool) : StepSpec np execAndJump := by
   step_start; step_gen [execAndJump]; all_goals vm_vc
@@ -91,13 +99,13 @@ theorem execJumpFalsy_ok (np : Bool) : StepSpec np execJumpFalsy := by
   step_start; step_gen [execJumpFalsy]; all_goals vm_vc
 
 theorem execGetGlobal_ok (np : Bool) : StepSpec np execGetGlobal := by
-  step_start; have fw := failWith_spec; step_gen [execGetGlobal, fw]; all_goals vm_vc
+  step_start; step_gen [execGetGlobal, failWith_spec]; all_goals vm_vc
 
 theorem execSetGlobal_ok (np : Bool) : StepSpec np execSetGlobal := by
-  step_start; have fw := failWith_spec; step_gen [execSetGlobal, fw]; all_goals vm_vc
+  step_start; step_gen [execSetGlobal, failWith_spec]; all_goals vm_vc
 
 theorem execSetIndex_ok (np : Bool) : StepSpec np execSetIndex := by
-  step_start; have fw := failWith_spec; step_gen [execSetIndex, fw]; all_goals vm_vc
+  step_start; step_gen [execSetIndex, failWith_spec]; all_goals vm_vc
 
 theorem execGetFree_ok (np : Bool) : StepSpec np execGetFree := by
   step_start; step_gen [execGetFree]; all_goals vm_vc
@@ -130,16 +138,16 @@ theorem execStoreModule_ok (np : Bool) : StepSpec np execStoreModule := by
   step_start; step_gen [execStoreModule]; all_goals vm_vc
 
 theorem execIterInit_ok (np : Bool) : StepSpec np execIterInit := by
-  step_start; have fw := failWith_spec; step_gen [execIterInit, fw]; all_goals vm_vc
+  step_start; step_gen [execIterInit, failWith_spec]; all_goals vm_vc
 
 theorem execIterNext_ok (np : Bool) (op : Nat) : StepSpec np (execIterNext op) := by
   step_start; step_gen [execIterNext]; all_goals vm_vc
 
 theorem execUnary_ok (np : Bool) (F : FloatOps) : StepSpec np (execUnary F) := by
-  step_start; have fw := failWith_spec; step_gen [execUnary, fw]; all_goals vm_vc
+  step_start; step_gen [execUnary, failWith_spec]; all_goals vm_vc
 
 theorem execSliceIndex_ok (np : Bool) : StepSpec np execSliceIndex := by
-  step_start; have fw := failWith_spec; step_gen [execSliceIndex, fw]; all_goals vm_vc
+  step_start; step_gen [execSliceIndex, failWith_spec]; all_goals vm_vc
 
 theorem execArray_ok (np : Bool) : StepSpec np execArray := by
   apply triple_of_fixed'; intro s0 hpre
@@ -164,8 +172,7 @@ theorem execClosure_ok (np : Bool) : StepSpec np execClosure := by
 
 theorem execGetIndex_ok (np : Bool) : StepSpec np execGetIndex := by
   apply triple_of_fixed'; intro s0 hpre
-  have fw := failWith_spec
-  mvcgen [pushV, bumpIp, getIp, setIp, getSp, setSp, getS, modS, stackGet, stackSet, curFrame, UgoVerif.VM.panic, unsupported, execGetIndex, fw]
+  mvcgen [pushV, bumpIp, getIp, setIp, getSp, setSp, getS, modS, stackGet, stackSet, curFrame, UgoVerif.VM.panic, unsupported, execGetIndex, failWith_spec]
   invariants
   · post⟨fun p s => ⌜(p.2.1 = none ∧ cp s = cp s0) ∨ (∃ r, p.2.1 = some r ∧ p.1.suffix = [] ∧ Wrap (StepOk np r s))⌝,
          fun _ s => ⌜Wrap (StepExc np s)⌝⟩
@@ -237,6 +244,7 @@ macro "vm_fvc" : tactic => `(tactic| (
     CallExc, VInv, curFn, curF, FailOk, FailExc] at *
   intros
   try simp only [cpf, cpx, cp, CP.mk.injEq] at *
+  try split_ands
   try simp_all +zetaDelta [stackSize, fn_setLast, fn_popHandler]
   try omega
   try grind [fn_setLast, fn_popHandler, frameOK_setLast, frameOK_popHandler, frameOK_pushHandler, CInv.get!,
@@ -244,22 +252,24 @@ macro "vm_fvc" : tactic => `(tactic| (
   try exact frameOK_noHandlers rfl
   try (simp only [CInv, frameSize] at *; simp_all; omega)))
 
+theorem frameOK_upd {f : Frame} (hf : FrameOK f) (fn : Option Addr) (hfn : f.fn = fn) (free : Option (List Addr))
+    (ip bp : Int) (d : Bool) :
+    FrameOK { fn := fn, free := free, ip := ip, bp := bp, handlers := f.handlers, discard := d } := by
+  subst hfn; exact frameOK_congr hf rfl rfl
+
 theorem execSetupTry_ok (np : Bool) : StepSpec np execSetupTry := by
   apply triple_of_fixed'; intro s0 hpre
-  have sc := setCurFrame_spec
-  step_gen [execSetupTry, sc]
+  step_gen [execSetupTry, setCurFrame_spec]
   all_goals vm_fvc
 
 theorem execSetupFinally_ok (np : Bool) : StepSpec np execSetupFinally := by
   apply triple_of_fixed'; intro s0 hpre
-  have sc := setCurFrame_spec
-  step_gen [execSetupFinally, sc]
+  step_gen [execSetupFinally, setCurFrame_spec]
   all_goals vm_fvc
 
 theorem execSetupCatch_ok (np : Bool) : StepSpec np execSetupCatch := by
   apply triple_of_fixed'; intro s0 hpre
-  have sc := setCurFrame_spec
-  step_gen [execSetupCatch, sc]
+  step_gen [execSetupCatch, setCurFrame_spec]
   all_goals vm_fvc
 
 theorem findFinally_spec (fuel : Nat) : ∀ (upto : Int) (c0 : CP),
@@ -275,9 +285,8 @@ theorem findFinally_spec (fuel : Nat) : ∀ (upto : Int) (c0 : CP),
   | succ fuel ih =>
     intro upto
     apply triple_of_fixed; intro s0 hv
-    have sc := setCurFrame_spec
     unfold findFinally
-    mvcgen [curFrame, getS, sc, ih]
+    mvcgen [curFrame, getS, setCurFrame_spec, ih]
     all_goals subst_vars
     all_goals (try simp only [wrap_iff, FFPost, VInv, curF] at *)
     all_goals (try simp only [cpf, cp, CP.mk.injEq] at *)
@@ -286,37 +295,25 @@ theorem findFinally_spec (fuel : Nat) : ∀ (upto : Int) (c0 : CP),
 
 theorem execFinalizer_ok (np : Bool) : StepSpec np execFinalizer := by
   apply triple_of_fixed'; intro s0 hpre
-  have sc := setCurFrame_spec
-  have ff := findFinally_spec
-  step_gen [execFinalizer, sc, ff]
+  step_gen [execFinalizer, setCurFrame_spec, findFinally_spec]
   all_goals (first | (vm_fvc; done) | trace_state)
 
 set_option maxHeartbeats 3200000 in
 theorem execThrow_ok (np : Bool) : StepSpec np execThrow := by
   apply triple_of_fixed'; intro s0 hpre
-  have sc := setCurFrame_spec
-  have tf := throwF_spec False True
-  have fs := throwFuel_spec
-  have cd := fun hi lo c0 => clearDown_spec hi lo c0 False
-  step_gen [execThrow, sc, tf, fs, cd]
+  step_gen [execThrow, setCurFrame_spec, throwF_specF, throwFuel_spec, clearDown_specF]
   all_goals (first | (vm_fvc; done) | skip)
-  vm_fvc
-  have h0 := lastHandler_sp (hpre.1.1.get! _) (by assumption)
-  grind [fn_popHandler]
+  all_goals (vm_fvc; exact lastHandler_sp (CInv.get! (by assumption) _) (by assumption))
 
 set_option maxHeartbeats 3200000 in
 theorem execReturn_ok (np : Bool) : StepSpec np execReturn := by
   apply triple_of_fixed'; intro s0 hpre
-  have sc := setCurFrame_spec
-  have cd := fun hi lo c0 => clearDown_spec hi lo c0 False
-  step_gen [execReturn, clearCurrentFrame, sc, cd]
+  step_gen [execReturn, clearCurrentFrame, setCurFrame_spec, clearDown_specF]
   all_goals (first | (vm_fvc; done) | skip)
   all_goals (
     vm_fvc
-    rename_i h
     have hb : (s0.frameIndex - 2).toNat < frameSize := by simp only [frameSize] at *; omega
-    have := h.1.cur _ hb
-    simp_all)
+    exact CInv.cur (by assumption) _ hb)
 
 /-! ### calls -/
 
@@ -357,12 +354,12 @@ theorem callCompiled_spec (fa : Addr) (numArgs flags : Int) : ∀ (c0 : CP),
     ⦃fun s => ⌜c0 = cp s ∧ CallPre numArgs s⌝⦄ callCompiled fa numArgs flags
     ⦃post⟨fun r s => ⌜CallOk c0 r s⌝, fun _ s => ⌜CallExc c0 s⌝⟩⦄ := by
   apply triple_of_fixed; intro s0 hpre
-  have sc := setCurFrame_spec
-  have cd := fun hi lo c0 => clearDown_spec hi lo c0 False
-  have ss := stackSlice_spec
-  have ef := enterFrame_spec
-  step_gen [callCompiled, sc, cd, ss, ef]
+  step_gen [callCompiled, setCurFrame_spec, clearDown_specF, stackSlice_spec, enterFrame_spec]
   all_goals (first | (vm_fvc; done) | skip)
-  all_goals (vm_fvc; trace_state)
+  all_goals (vm_fvc; first
+    | exact frameOK_noHandlers rfl
+    | (apply frameOK_upd (CInv.get! (by assumption) _) _ (by assumption))
+    | exact frameOK_congr (CInv.get! (by assumption) _) rfl rfl
+    | trace_state)
 
 end UgoVerif.Proofs.VM
